@@ -235,6 +235,17 @@ class _K(object):
                 d = clone(doc)
                 set_value(d.recs[i], ep, sp, v)
                 return _mk(d, 'bad_code', i, ep, sp, ['7'], v, note='code-list-on-non-ID-element')
+        # the first element of a segment, situational, with a code list: it does NOT decide which node the segment belongs to (only a required
+        # one does), so a value outside its list is an element finding like any other
+        first_sit = [x for x in all_sites if x[2] == 1 and x[3] is None and x[1].usage == 'S' and x[1].codes and not x[1].external]
+        if first_sit and rng.random() < 0.5:
+            i, node, ep, sp, cur = rng.choice(first_sit)
+            dt, mn, mx = gen_doc.dtype_of(node)
+            pool = [v for v in ['ZZ', 'Z', 'QQQ', 'ZZZZ', 'Q9', 'X7X'] if mn <= len(v) <= mx and v not in node.codes]
+            if pool:
+                d = clone(doc)
+                set_value(d.recs[i], ep, sp, pool[0])
+                return _mk(d, 'bad_code', i, ep, sp, ['7'], pool[0], note='situational-first-element-with-code-list')
         if not all_sites:
             return None
 
@@ -380,10 +391,19 @@ class _K(object):
                     'DT': (['200312132561', '200307049960', '200311302400', '200608150075', '200402292460', '200013011200'], ['8', '9']),
                     'TM': (['2561', '0860', '9999', '24'], ['9'])}[q]
         v = rng.choice(v)
+        note = 'format:' + q
+        # the node lists another format as well: a value that is well formed in THAT format is still wrong under the qualifier given
+        listed = set(doc.recs[i].node.children[1].codes or ())
+        other = {'D8': [('RD8', '20200101-20200105'), ('DT', '202001011230')], 'RD8': [('D8', '20200101')]}.get(q, [])
+        other = [val for (fmt, val) in other if fmt in listed]
+        if other and rng.random() < 0.6:
+            v = rng.choice(other)
+            codes = ['8']
+            note += ':well-formed-in-another-listed-format'
         d = clone(doc)
         d.recs[i].vals[1] = q
         d.recs[i].vals[2] = v
-        return _mk(d, 'bad_qualified_datetime', i, 3, None, codes, v, note='format:' + q)
+        return _mk(d, 'bad_qualified_datetime', i, 3, None, codes, v, note=note)
 
     @staticmethod
     def missing_required(rng, doc):
